@@ -5,6 +5,7 @@ package main
 import (
 	"fmt"
 	"math/big"
+	"os"
 	"sort"
 	"strings"
 	"sync"
@@ -38,6 +39,10 @@ func (w *Worker) reset() error {
 		return err
 	}
 	w.solver = s
+	if lp := os.Getenv("GOSYM_SOLVER_LOG"); lp != "" {
+		f, _ := os.Create(fmt.Sprintf("%s.%d", lp, w.id))
+		s.log = f
+	}
 	return nil
 }
 
@@ -279,7 +284,9 @@ func (w *Worker) runPath(cfg RunConfig, prefix []int) *PathResult {
 		}
 	}
 	for _, in := range ex.inputs {
-		pr.Inputs = append(pr.Inputs, in.Name)
+		if !in.Aux {
+			pr.Inputs = append(pr.Inputs, in.Name)
+		}
 	}
 	return pr
 }
